@@ -22,17 +22,19 @@ def main():
         det = m.get("detected_by", [])
         own = m["property"] in det
         first_try = "yes" if m.get("own_check_detected_it_on_arrival", True) else "no"
-        rows.append((name, m["property"], "yes" if v.get("confirmed") else "NO", ", ".join(det) or "-", "yes" if own else "no", first_try if name.count("-r4") else "", first))
+        rows.append((name, m["property"], "yes" if v.get("confirmed") else "NO", ", ".join(det) or "-", "yes" if own else "no", first_try if (name.count("-r4") or name.count("-r5")) else "", first))
     out = ["# Seeded breakages", "",
            "Each directory holds `patch.diff`, the demonstration `demo.py`, the author's `notes.md` and `meta.json` (what it needs to manifest, what was run to confirm it, which checks detect it).",
            "All were written by sub-agents that saw only the text of one property and a scratch worktree (nothing from /verif), then confirmed here in a fresh scratch worktree: the demonstration passes on the unchanged tree and fails with the change, and the repository's test suite passes exactly the baseline's stable set with the change applied.",
-           "", "| seed | property | confirmed | detected by (quick tier) | by its own check | round 4: by its own check as it stood when the seed arrived | what it is |", "|---|---|---|---|---|---|---|"]
+           "", "| seed | property | confirmed | detected by (quick tier) | by its own check | rounds 3-4: by its own check as it stood when the seed arrived | what it is |", "|---|---|---|---|---|---|---|"]
     for r in rows:
         out.append("| " + " | ".join(r) + " |")
     n = len(rows)
     r4 = [r for r in rows if "-r4" in r[0]]
+    r5 = [r for r in rows if "-r5" in r[0]]
     out += ["", f"{n} seeded changes; {sum(1 for r in rows if r[3] != '-')} detected by at least one check, {sum(1 for r in rows if r[4] == 'yes')} by the check of the property they were written against.",
-            f"Round 4 (session 3, {len(r4)} changes): {sum(1 for r in r4 if r[5] == 'yes')} were detected by their own check as it stood when they arrived, {sum(1 for r in r4 if r[4] == 'yes')} after strengthening."]
+            f"Round 3 (directories *-r4*, {len(r4)} changes): {sum(1 for r in r4 if r[5] == 'yes')} were detected by their own check as it stood when they arrived, {sum(1 for r in r4 if r[4] == 'yes')} after strengthening.",
+            f"Round 4 (directories *-r5*, {len(r5)} changes): {sum(1 for r in r5 if r[5] == 'yes')} detected on arrival (seeds whose check was strengthened from the author's report before measuring count as misses), {sum(1 for r in r5 if r[4] == 'yes')} after strengthening."]
     open(os.path.join(ROOT, "seeded", "README.md"), "w").write("\n".join(out) + "\n")
     print("\n".join(out[-3:]))
 
